@@ -183,3 +183,58 @@ func UF64(name string, args ...uint64) uint64 {
 	return v
 }
 func EventsStart(tid int) {}
+
+// ---- references to unexported encoding/json functions ----
+// Under the symbolic engine these calls are redirected to the REAL stdlib
+// functions (executed from their SSA bodies); natively they run the copies below.
+
+// JSONIsSpace is encoding/json.isSpace.
+func JSONIsSpace(c byte) bool {
+	return c <= ' ' && (c == ' ' || c == '\t' || c == '\r' || c == '\n')
+}
+
+// JSONIsValidNumber is encoding/json.isValidNumber.
+func JSONIsValidNumber(s string) bool {
+	if s == "" {
+		return false
+	}
+	if s[0] == '-' {
+		s = s[1:]
+		if s == "" {
+			return false
+		}
+	}
+	switch {
+	default:
+		return false
+	case s[0] == '0':
+		s = s[1:]
+	case '1' <= s[0] && s[0] <= '9':
+		s = s[1:]
+		for len(s) > 0 && '0' <= s[0] && s[0] <= '9' {
+			s = s[1:]
+		}
+	}
+	if len(s) >= 2 && s[0] == '.' && '0' <= s[1] && s[1] <= '9' {
+		s = s[2:]
+		for len(s) > 0 && '0' <= s[0] && s[0] <= '9' {
+			s = s[1:]
+		}
+	}
+	if len(s) >= 2 && (s[0] == 'e' || s[0] == 'E') {
+		s = s[1:]
+		if s[0] == '+' || s[0] == '-' {
+			s = s[1:]
+			if s == "" {
+				return false
+			}
+		}
+		for len(s) > 0 && '0' <= s[0] && s[0] <= '9' {
+			s = s[1:]
+		}
+	}
+	return s == ""
+}
+
+// InPool reports (symbolic engine only) whether b's backing array is currently owned by a sync.Pool.
+func InPool(b []byte) bool { return false }
